@@ -68,8 +68,9 @@ def run_scenario(case, layer):
     sim = W.sim
     viol = M.Violations()
     # endpoints: per stack one CA, two CAs, or no CA at all (ECU-level listener bound to an integer address, sending through ecu.send_pgn)
-    layouts = case.get('layouts') or [rng.choice(['ca', 'ca', 'ca', 'ca2', 'int']) for _ in range(n)]
-    n_eps = sum(2 if l == 'ca2' else 1 for l in layouts)
+    # (int2 / intca: two applications on one stack of which at least one is an ECU-level listener bound to an integer address)
+    layouts = case.get('layouts') or [rng.choice(['ca', 'ca', 'ca', 'ca2', 'int', 'int2', 'intca']) for _ in range(n)]
+    n_eps = sum(2 if l in ('ca2', 'int2', 'intca') else 1 for l in layouts)
     addrs = rng.sample(range(0, 254), n_eps)
     if rng.random() < 0.2 and 0 not in addrs:
         addrs[rng.randrange(n_eps)] = 0           # address 0 is a perfectly good (and falsy) address
@@ -118,10 +119,10 @@ def run_scenario(case, layer):
         if rng.random() < 0.2:
             node.ecu.add_timer(rng.choice([0.003, 0.03, 0.9, 2.0]), lambda c: True)       # unrelated periodic application timer
         W.listen_ecu(node, ('ecu', i))
-        for k in range(2 if layouts[i] == 'ca2' else 1):
+        for k in range(2 if layouts[i] in ('ca2', 'int2', 'intca') else 1):
             a = addrs[len(eps)]
             e = len(eps)
-            if layouts[i] == 'int':
+            if layouts[i] in ('int', 'int2') or (layouts[i] == 'intca' and k == 0):
                 node.ecu.subscribe(mk_listener(('int', e)), a)
                 senders.append(lambda dp, pf, ps, prio, data, _n=node, _a=a: _n.ecu.send_pgn(dp, pf, ps, prio, _a, data))
                 eps.append(dict(stack=i, addr=a, kind='int'))
